@@ -96,6 +96,8 @@ func (c *Catalog) tagsFromTagsDirective(d *directive.Directive) ([]*Tag, *jerr.J
 
 	tt := make([]*Tag, 0, d.UnnamedParametersLen())
 
+	seen := make(map[TagName]struct{}, d.UnnamedParametersLen())
+
 	for _, name := range d.UnnamedParameter() {
 		tn := TagName(name)
 
@@ -103,6 +105,13 @@ func (c *Catalog) tagsFromTagsDirective(d *directive.Directive) ([]*Tag, *jerr.J
 		if !ok {
 			return nil, d.KeywordError(fmt.Sprintf("%s %q", jerr.TagNotFound, tn))
 		}
+
+		// a tag named twice ("Tags @a @a") is still one tag: the interaction
+		// must be listed once under it
+		if _, ok := seen[tn]; ok {
+			continue
+		}
+		seen[tn] = struct{}{}
 
 		tt = append(tt, t)
 	}
